@@ -241,7 +241,7 @@ def one_case(ctx, case):
                     del s[min(pos, len(s) - 1)]
                 elif op < 0.85:
                     s.insert(pos, rng.choice(alphabet))
-                else:
+                elif s:
                     a, b = sorted((rng.randrange(len(s)), rng.randrange(len(s))))
                     s[a:b] = []
             text = "".join(s)
